@@ -313,3 +313,43 @@ Example refute_iv_acyc_class :
   option_map snd (run_queries 100 refute_iv_acyc sstate_empty [([0], 10); ([2], 10); ([4], 10)])
   = Some [true; true; true].
 Proof. vm_compute. repeat split; reflexivity. Qed.
+
+(* ---- EVERY graph, cycles and node conditions included: what the memoised search does guarantee ---- *)
+From PV Require Import Typegraph.CyclicMemo.
+
+(* Whatever is accepted - by a fresh solver or by one that has answered any number of queries before - is
+   CIRCULARLY explained: the state (n, S) lies in a set of search states each of which is a leaf of
+   FindSolution or has a FindSolution successor in the set (the greatest-fixpoint reading of the explanation
+   relation; the provisional `true` entry of RecallOrFindSolution is sound for exactly this reading, and the
+   clause (iii)/(iv) findings on cyclic graphs are the gap between it and the least fixpoint). *)
+Theorem accepted_circularly_explained : forall g fuel qs st' answers,
+  run_queries fuel g sstate_empty qs = Some (st', answers) ->
+  Forall2 (fun q a => a = true -> GExpl g (snd q, sof_list (fst q))) qs answers.
+Proof.
+  intros g fuel qs st' answers H.
+  exact (proj2 (run_queries_gexpl g fuel qs _ _ _ H (st_okG_empty g))).
+Qed.
+Print Assumptions accepted_circularly_explained.
+
+(* Within one solver, the same query asked again - whatever was asked in between - gets the answer it got the
+   first time: solved_states_ only grows and a finished entry never changes (every graph, every fuel). *)
+Theorem answers_sticky_within_one_solver : forall g fuel pre attrs n mid post st st' answers,
+  run_queries fuel g st (pre ++ (attrs, n) :: mid ++ (attrs, n) :: post) = Some (st', answers) ->
+  exists a, nth_error answers (length pre) = Some a /\
+            nth_error answers (length pre + S (length mid)) = Some a.
+Proof. exact run_queries_sticky. Qed.
+Print Assumptions answers_sticky_within_one_solver.
+
+(* GExpl is not vacuous: a goal without any origin is not circularly explained ... *)
+Definition g_no_origin : graph := mkGraph [mkNode [] None] [mkBinding 0 []].
+Example gexpl_can_fail : ~ GExpl g_no_origin (0, [0]).
+Proof.
+  assert (Hor : forall b, origins g_no_origin b = []) by (intros [|[|b]]; reflexivity).
+  intros [T [HT Hcl]].
+  destruct (Hcl _ HT) as [[removed [Hr Hc]]|[t' [[removed [new [Hr [Hc [Hne [Hp Hs]]]]]] _]]].
+  - destruct (resolves_at_facts _ _ _ _ _ Hr) as [A [B _]].
+    destruct (A 0 (or_introl eq_refl)) as [H0|[]]. apply (B 0 H0). reflexivity.
+  - destruct Hp as [fin [path [Hf _]]]. apply In_finish_nodes in Hf.
+    destruct Hf as [b [o [_ [Ho _]]]]. rewrite Hor in Ho. destruct Ho.
+Qed.
+(* ... and the theorem applies to runs on cyclic graphs: loop_nocond_hyps above is one (answers true/false/false) *)
